@@ -222,6 +222,18 @@ alg_sign_sug(const jose_hook_alg_t *alg, jose_cfg_t *cfg, const json_t *jwk)
     }
 }
 
+static bool
+jwk_on_alg_curve(const jose_hook_alg_t *alg, const json_t *jwk)
+{
+    const char *grp = alg2crv(alg->name);
+    const char *crv = NULL;
+
+    if (json_unpack((json_t *) jwk, "{s:s}", "crv", &crv) < 0)
+        return false;
+
+    return grp && strcmp(crv, grp) == 0;
+}
+
 static jose_io_t *
 alg_sign_sig(const jose_hook_alg_t *alg, jose_cfg_t *cfg, json_t *jws,
              json_t *sig, const json_t *jwk)
@@ -229,6 +241,9 @@ alg_sign_sig(const jose_hook_alg_t *alg, jose_cfg_t *cfg, json_t *jws,
     const jose_hook_alg_t *halg = NULL;
     jose_io_auto_t *io = NULL;
     io_t *i = NULL;
+
+    if (!jwk_on_alg_curve(alg, jwk))
+        return NULL;
 
     halg = jose_hook_alg_find(JOSE_HOOK_ALG_KIND_HASH, alg2hash(alg->name));
     if (!halg)
@@ -261,6 +276,9 @@ alg_sign_ver(const jose_hook_alg_t *alg, jose_cfg_t *cfg, const json_t *jws,
     const jose_hook_alg_t *halg = NULL;
     jose_io_auto_t *io = NULL;
     io_t *i = NULL;
+
+    if (!jwk_on_alg_curve(alg, jwk))
+        return NULL;
 
     halg = jose_hook_alg_find(JOSE_HOOK_ALG_KIND_HASH, alg2hash(alg->name));
     if (!halg)
